@@ -5,6 +5,7 @@ CONSTANTS
   ViewIds = {1, 2}
   MaxEvents = 3
   SharedSlot = FALSE
+  FlattenUnion = FALSE
   ArgAliased = TRUE
 INVARIANT ReadIsFilter
 INVARIANT SurvivorsInOrder
